@@ -1356,7 +1356,52 @@ pub fn run_c18m(toks: &[&str]) -> Lines {
 // the in-memory shard through the manager (which flushes by itself when the size target is reached), `FL` flushes, `qd` asks the
 // manager.  The answers are compared with the model; every answer is judged for truthfulness, and -- when the cap was never
 // reached -- a query for a chunk the manager was told about, whose first 64 bits are unambiguous under its key, must be answered.
+// `Cbig <xorb hash> <n> <seed>` stands for a block of n chunks of 7 bytes each with hashes derived from the seed (a xorb far
+// beyond this client's own limit of chunks per xorb, as another client may have written it); `Abig ..` adds such a block through
+// the manager; `qbig <seed> <from> <len>` asks for len of its chunks starting at chunk <from>
+fn big_chunk_hash(seed: u64, i: u64) -> String {
+    let mut h = [0u8; 32];
+    for w in 0..4u64 {
+        let mut z = seed.wrapping_mul(0x9E3779B97F4A7C15).wrapping_add(i.wrapping_mul(4).wrapping_add(w)).wrapping_add(0x632BE59BD9B4E019);
+        z = (z ^ (z >> 30)).wrapping_mul(0xBF58476D1CE4E5B9);
+        z = (z ^ (z >> 27)).wrapping_mul(0x94D049BB133111EB);
+        z ^= z >> 31;
+        h[(w as usize) * 8..(w as usize) * 8 + 8].copy_from_slice(&z.to_le_bytes());
+    }
+    h.iter().map(|b| format!("{:02x}", b)).collect()
+}
+fn expand_big(toks: &[&str]) -> String {
+    let mut out: Vec<String> = vec![];
+    let mut i = 0;
+    while i < toks.len() {
+        match toks[i] {
+            "Cbig" | "Abig" => {
+                let n: u64 = toks[i + 2].parse().unwrap();
+                let seed: u64 = toks[i + 3].parse().unwrap();
+                let chunks: Vec<String> = (0..n).map(|k| format!("{}:7:{}:0", big_chunk_hash(seed, k), (k * 7) & 0xFFFFFFFF)).collect();
+                out.push(format!("{} {} 0 {} {} {}", if toks[i] == "Cbig" { "C" } else { "A" }, toks[i + 1], (n * 7) & 0xFFFFFFFF, (n * 7) & 0xFFFFFFFF, chunks.join(",")));
+                i += 4;
+            },
+            "qbig" => {
+                let seed: u64 = toks[i + 1].parse().unwrap();
+                let from: u64 = toks[i + 2].parse().unwrap();
+                let len: u64 = toks[i + 3].parse().unwrap();
+                out.push(format!("qd {}", (from..from + len).map(|k| big_chunk_hash(seed, k)).collect::<Vec<_>>().join(",")));
+                i += 4;
+            },
+            t => {
+                out.push(t.to_string());
+                i += 1;
+            },
+        }
+    }
+    out.join(" ")
+}
+
 pub fn run_mgr(toks: &[&str]) -> Lines {
+    let expanded = expand_big(toks);
+    let toks: Vec<&str> = expanded.split(' ').filter(|t| !t.is_empty()).collect();
+    let toks = &toks[..];
     let ops = split_ops(toks);
     let mut groups: Vec<Vec<Vec<&str>>> = vec![vec![]];
     for op in &ops {
